@@ -57,7 +57,9 @@ SeqProg == <<[t |-> "for", tag |-> "for", var |-> <<105>>, coll |-> Var(A), body
              Ob(Fl(Fl(Var(A), "uniq", <<>>), "join", <<>>))>>
 StrSeqProg == <<[t |-> "for", tag |-> "for", var |-> <<105>>, coll |-> Var(A), rev |-> TRUE, body |-> <<Ob(Var(<<105>>))>>], Bar,
                 Ob(Fl(Var(A), "join", <<Lit(Str(<<43>>))>>)), Bar, Ob(Fl(Fl(Var(A), "sort", <<>>), "join", <<>>)), Bar, Bit(Cmp("contains", Var(A), Lit(Str(<<98>>)))),
-                Ob(P(Var(A), B_size)), Ob(Ix(Var(A), Lit(IntV(0))))>>
+                Ob(P(Var(A), B_size)), Ob(Ix(Var(A), Lit(IntV(0)))), Bar, Ob(Fl(Fl(Var(A), "sort_natural", <<>>), "join", <<>>)), Bar,
+                Ob(Fl(Fl(Var(A), "sort", <<>>), "first", <<>>)), Ob(Fl(Fl(Var(A), "uniq", <<>>), "size", <<>>))>>
+MapSzProg == <<T(<<91>>), Ob(P(Var(M), B_size)), Bar, Ob(Ix(Var(M), Lit(Str(B_size)))), Bar, Ob(P(Var(M), KK)), Bar, Bit(P(Var(M), B_size)), T(<<93>>)>>
 MapProg == <<Ob(P(Var(M), KK)), Bar, Ob(Ix(Var(M), Lit(Str(JJ)))), Bar, Ob(P(Var(M), B_size)), Bar, Bit(Cmp("==", P(Var(M), KK), Lit(IntV(1)))),
              Ob(P(Var(M), <<122>>)), Bar, Ob(Fl(P(Var(M), KK), "plus", <<P(Var(M), JJ)>>))>>
 \* (size is not probed: for a []byte both the byte count and the character count are defensible)
@@ -95,7 +97,9 @@ NilSeqProbes == <<
   Bit(Ix(Var(A), Lit(IntV(1)))), Bit(Cmp("==", Ix(Var(A), Lit(IntV(1))), Lit(Nil))), Bit(Cmp("contains", Var(A), Lit(Nil))),
   Ob(Fl(Fl(Var(A), "reverse", <<>>), "join", <<>>)), Ob(Fl(Fl(Var(A), "concat", <<Var(A)>>), "join", <<>>)), Ob(Fl(Ix(Var(A), Lit(IntV(1))), "default", <<Bang>>)),
   Ob(Fl(Fl(Var(A), "map", <<Lit(Str(KK))>>), "join", <<>>)), Ob(Fl(Fl(Var(A), "sort", <<>>), "join", <<>>)), Ob(Fl(Var(A), "first", <<>>)), Ob(Fl(Fl(Var(A), "last", <<>>), "upcase", <<>>)),
-  Ob(Fl(Ix(Var(A), Lit(IntV(1))), "append", <<Bang>>)), Ob(Fl(Ix(Var(A), Lit(IntV(1))), "size", <<>>)), Ob(Fl(Bang, "append", <<Ix(Var(A), Lit(IntV(1)))>>))
+  Ob(Fl(Ix(Var(A), Lit(IntV(1))), "append", <<Bang>>)), Ob(Fl(Ix(Var(A), Lit(IntV(1))), "size", <<>>)), Ob(Fl(Bang, "append", <<Ix(Var(A), Lit(IntV(1)))>>)),
+  Ob(Fl(Fl(Var(A), "sort", <<>>), "first", <<>>)), Ob(Fl(Fl(Var(A), "sort", <<>>), "last", <<>>)), Ob(Fl(Fl(Var(A), "sort_natural", <<>>), "join", <<Lit(Str(<<44>>))>>)),
+  Ob(Fl(Fl(Fl(Var(A), "reverse", <<>>), "sort", <<>>), "join", <<Lit(Str(<<44>>))>>))
 >>
 \* bindings that are a graph: equal arrays and maps are one Go value reached along several paths ("@share")
 SharedProbes == <<
@@ -123,6 +127,8 @@ Cases ==
   \* membership: every sequence representation x every width of the needle
   \cup [g : {"member"}, r : {"", "ints", "int64s", "int8s", "float64s", "array3", "drop"}, xr : 1..(Len(IntWidths) + 2), xv : {2, 5}]
   \cup [g : {"map"}, r : {"", "mapint", "mapslice", "drop", "ptr"}, er : {"", "drop", "int32", "uint8"}]
+  \* a map with a size key that holds nil: the key wins over the entry count, in every representation
+  \cup [g : {"mapsz"}, r : {"", "mapslice", "drop", "ptr", "anystrkeys"}]
   \cup [g : {"bytes"}, r : {"", "bytes", "drop", "ptr"}]
   \cup [g : {"ptr"}, r : {"", "ptr"}, mr : {"", "ptr"}]
   \cup [g : {"drop"}, bits : IF Full THEN 0..511 ELSE {0, 511} \cup {2^i : i \in 0..8} \cup {511 - 2^i : i \in 0..8}]
@@ -139,7 +145,7 @@ ProgOf(x) ==
     [] x.g = "nilseq" -> <<NilSeqProbes[x.p]>>
     [] x.g = "shared" -> <<SharedProbes[x.p]>>
     [] x.g \in {"num", "numf"} -> NumProg [] x.g = "flt" -> FltProg [] x.g = "seq" -> SeqProg [] x.g = "strseq" -> StrSeqProg
-    [] x.g = "map" -> MapProg [] x.g = "bytes" -> BytesProg [] x.g = "ptr" -> PtrProg [] x.g = "drop" -> DropProg
+    [] x.g = "map" -> MapProg [] x.g = "mapsz" -> MapSzProg [] x.g = "bytes" -> BytesProg [] x.g = "ptr" -> PtrProg [] x.g = "drop" -> DropProg
 M1(k, v) == MapV(<< <<k, v>> >>)
 EnvOf2(x) ==
   CASE x.g = "member" -> << <<A, Arr(<<IntV(1), IntV(2), IntV(3)>>)>>, <<X, IntV(x.xv)>> >>
@@ -154,6 +160,7 @@ EnvOf2(x) ==
                               <<M, MapV(<< <<<<119>>, M1(KK, IntV(1))>>, <<X, one>>, <<Y, one>>, <<<<122>>, M1(KK, IntV(1))>> >>)>> >>
     [] x.g = "strseq" -> << <<A, Arr(<<Str(<<99>>), Str(<<97>>), Str(<<98>>)>>)>> >>
     [] x.g = "map" -> << <<M, MapV(<< <<JJ, IntV(4)>>, <<KK, IntV(1)>> >>)>> >>
+    [] x.g = "mapsz" -> << <<M, MapV(<< <<KK, IntV(1)>>, <<B_size, Nil>> >>)>> >>
     [] x.g = "bytes" -> << <<S0, Str(<<104, 195, 169, 108, 108, 111>>)>> >>
     [] x.g = "ptr" -> << <<M, M1(PP, Str(<<113>>))>>, <<PP, Str(<<118>>)>> >>
     [] x.g = "drop" -> << <<A, Arr(<<M1(KK, IntV(1)), M1(KK, Str(<<118>>))>>)>>, <<<<102>>, Bool(FALSE)>>, <<<<108>>, Arr(<<Str(<<98>>), Str(<<97>>)>>)>>,
@@ -170,6 +177,7 @@ ReprOf(x) ==
     [] x.g = "shared" -> ("@share" :> "1")
     [] x.g = "strseq" -> H("a", x.r) @@ (IF x.r \in {"", "array3", "drop"} THEN H("a/0", x.er) ELSE <<>>)
     [] x.g = "map" -> H("m", x.r) @@ (IF x.r # "mapint" THEN H("m/k", x.er) ELSE <<>>)
+    [] x.g = "mapsz" -> H("m", x.r)
     [] x.g = "bytes" -> H("s", x.r)
     [] x.g = "ptr" -> H("p", x.r) @@ H("m/p", x.mr)
     [] x.g = "drop" -> DH("a", x.bits, 1) @@ DH("a/0", x.bits, 2) @@ DH("a/1", x.bits, 3) @@ DH("a/0/k", x.bits, 4) @@ DH("x", x.bits, 5)
